@@ -41,6 +41,9 @@ def run(rep: Report, tier: str) -> None:
 
     # ---------------------------------------------------------------- C20.a
     ra = rep.rule("C20.a", "one sheet per asset-year, each transaction once: dictionary keyed by the transaction's own year over all three window sets; one row per listed transaction", floor=8)
+    from ..engine import check_cell_sink
+
+    check_cell_sink(rep, ra)
     loops = [n for n in ga.node.body if isinstance(n, ast.For)]
     per_year_c = [n for n in loops if any(isinstance(c, ast.Call) and isinstance(c.func, ast.Attribute) and c.func.attr == "__generate_asset_year" for c in ast.walk(n))]
     grp_c = [n for n in loops if n not in per_year_c]
@@ -159,6 +162,9 @@ def run(rep: Report, tier: str) -> None:
 
     # ---------------------------------------------------------------- C20.d
     rd = rep.rule("C20.d", "summary sheets: created when the year is first seen by this instance, one line per asset-year, references through the same call's names; per-instance state", floor=6)
+    from ..engine import check_private_shadowing
+
+    check_private_shadowing(rep, rd, [gen])
     init_f = gen.methods.get("__init__")
     inst = [unparse(n.target if isinstance(n, ast.AnnAssign) else n.targets[0]) for n in ast.walk(init_f.node) if isinstance(n, (ast.Assign, ast.AnnAssign))] if init_f else []
     rep.check("self.__year_row_offset" in inst and "self.__number_of_summaries" in inst, rd, JP, "Generator.__init__", "summary bookkeeping is per instance (set in __init__)", f"__init__ sets {inst}: class-level bookkeeping would leak across runs", loc(gen.node))
